@@ -72,7 +72,9 @@ func vpC07Leftover(fixedRand bool) {
 	})
 	vpOtherPrio = 0
 	if takeover {
-		s.kv.ackYield = true // operations of concurrent rounds interleave between application and response
+		// store operations take 30ms, so that operations of concurrent acquisition rounds overlap in time
+		s.kv.lat = 30 * time.Millisecond
+		s.kv.latMin = s.kv.lat
 	}
 	go func() {
 		vpDelay("vacate", 0, 600*time.Millisecond)
@@ -93,6 +95,7 @@ func vpC07Leftover(fixedRand bool) {
 	vpAssert("C07.no-spurious-edge", s.edges == 0 && s.e.IsLeader())
 	vpAssert("C07.no-demote-callback", s.cb.demotes == 0)
 	vpAssert("C07.token-stable", s.e.Token() == tok && s.cb.promotes == 1)
+	vpAssert("C08.promote-once-per-term", s.cb.promotes == 1 && s.cb.demotes == 0)
 	vpAssert("C07.owner-stable", s.st.live() && vpRecID(s.st.val) == "a" && vpRecTok(s.st.val) == tok)
 	vpAssert("C02.claim-backed", vpClaimBacked(s.e, s.st, "a"))
 	vpAuditLog(s.st, "a", false, 0, false)
